@@ -33,6 +33,10 @@ type H struct {
 	Now func() (time.Time, bool)
 	// Tune returns per-run values of tunable constants.
 	Tune func(name string, def int) int
+	// MapAccess reports an annotated access to a built-in map (focus functions and every step of
+	// a rewritten map range): the simulation's happens-before checker decides whether it is ordered
+	// with the accesses of the other tasks.
+	MapAccess func(m any, write bool, site string)
 }
 
 var (
@@ -151,7 +155,13 @@ type Ent[K comparable, V any] struct {
 
 // Live reports whether the entry is still present (Go never produces an entry removed before it
 // is reached).
-func (e Ent[K, V]) Live() bool { _, ok := e.m[e.k]; return ok }
+func (e Ent[K, V]) Live() bool {
+	if h := cur.Load(); h != nil && h.MapAccess != nil {
+		h.MapAccess(e.m, false, "range-step")
+	}
+	_, ok := e.m[e.k]
+	return ok
+}
 func (e Ent[K, V]) K() K       { return e.k }
 func (e Ent[K, V]) V() V       { return e.m[e.k] }
 
@@ -159,6 +169,11 @@ func (e Ent[K, V]) V() V       { return e.m[e.k] }
 // simulation is attached or MapSeed is 0). Go leaves map iteration order unspecified, so any
 // order is a legal execution.
 func Iter[M ~map[K]V, K comparable, V any](m M) []Ent[K, V] {
+	if m != nil {
+		if h := cur.Load(); h != nil && h.MapAccess != nil {
+			h.MapAccess(map[K]V(m), false, "range-start")
+		}
+	}
 	if len(m) == 0 {
 		return nil
 	}
@@ -172,6 +187,18 @@ func Iter[M ~map[K]V, K comparable, V any](m M) []Ent[K, V] {
 		out[i] = Ent[K, V]{m: m, k: ks[i].k}
 	}
 	return out
+}
+
+// MapRead / MapWrite announce an access to a built-in map by the statement that follows.
+func MapRead(m any, site string) {
+	if h := cur.Load(); h != nil && h.MapAccess != nil {
+		h.MapAccess(m, false, site)
+	}
+}
+func MapWrite(m any, site string) {
+	if h := cur.Load(); h != nil && h.MapAccess != nil {
+		h.MapAccess(m, true, site)
+	}
 }
 
 // SyncMapRange is sync.Map.Range with a simulation-chosen order.
